@@ -17,6 +17,7 @@ import (
 	"reflect"
 	"runtime"
 	"runtime/debug"
+	"runtime/pprof"
 	"strconv"
 	"strings"
 	"unsafe"
@@ -432,9 +433,15 @@ func moveStack() bool {
 var events = []string{"none", "GC", "MoveStack", "GC+MoveStack", "Drop+GC"}
 var modes = []string{"apply-func", "apply-closure", "return"}
 
-func doEvent(ev string, stats *runStats) {
+func doEvent(ev string, stats *runStats, inside bool) {
 	if strings.Contains(ev, "GC") {
-		gcEvent()
+		if inside {
+			// inside the replacement: one full collection (mark + sweep + clobber) and reuse of freed slots
+			runtime.GC()
+			churn()
+		} else {
+			gcEvent()
+		}
 	}
 	if strings.Contains(ev, "MoveStack") {
 		if moveStack() {
@@ -602,13 +609,13 @@ func runCaseHere(f *glue.Fn, cs *Case, st *runStats) (fl *failure) {
 		b = nil
 		dropped = true
 	}
-	doEvent(cs.Event, st)
+	doEvent(cs.Event, st, false)
 
 	// 3./4. two calls while mocked; during the second one the event also happens inside the replacement
 	for n := 1; n <= 2; n++ {
 		if n == 2 && apply && cs.Event != "none" {
 			ev := cs.Event
-			rec.Hook = func() { doEvent(ev, st) }
+			rec.Hook = func() { doEvent(ev, st, true) }
 		}
 		rec.Args = nil
 		calls0, orig0 := rec.Calls, corpus.Orig
@@ -724,7 +731,13 @@ func crashesSoFar(c *vk.Ctx) int {
 
 // Run is the worker entry point.
 func Run(c *vk.Ctx) {
-	runtime.GOMAXPROCS(2)
+	runtime.GOMAXPROCS(1)
+	if pf := os.Getenv("VERIF_PPROF"); pf != "" {
+		if fh, err := os.Create(pf); err == nil {
+			_ = pprof.StartCPUProfile(fh)
+			defer pprof.StopCPUProfile()
+		}
+	}
 	if c.Replay != "" {
 		var cs Case
 		c.LoadReplay(&cs)
@@ -800,7 +813,7 @@ func Run(c *vk.Ctx) {
 							c.Res.Unjudged++
 						}
 						if st.entered {
-							c.Distinct(cs.id())
+							c.Res.Nontrivial++ // cases are pairwise distinct by construction of the enumeration
 						}
 						cs.Sig = sig(f)
 						c.Sample(cs)
